@@ -5,7 +5,8 @@ use crate::util::Ctx;
 fn rand_id(ctx: &mut Ctx) -> Vec<u8> { ctx.rng.bytes_in(4, 20) }
 
 pub fn gen(ctx: &mut Ctx) {
-    let rps = ["a.example.com", "b.example.org", "c.example.net"];
+    // unrelated names, and names that are label suffixes / extensions of one another (an RP ID is matched exactly)
+    let rps = ["a.example.com", "b.example.org", "c.example.net", "example.com", "login.a.example.com", "A.example.com"];
     // ---- corpus: the cross-RP cases that the shipped stores got wrong
     for kind in [Kind::Map, Kind::Slot, Kind::RefFull] {
         let id = vec![0xAA, 1, 2, 3];
@@ -35,6 +36,58 @@ pub fn gen(ctx: &mut Ctx) {
         let mut m2 = simple_make(ctx, rps[0]); m2.exclude = Some(vec![miss.clone(), id.clone()]); m2.rk = false;
         run_case(ctx, "C05", &w, &[step(Op::Get(g1)), step(Op::Get(g2)), step(Op::Get(g3)), step(Op::Get(g4)), step(Op::Make(m2)), step(Op::Make(m1))]);
         ctx.stat("c05.corpus.wrappers");
+    }
+    // ---- shared lock wrappers while another user of the same store holds the lock: the ceremony waits, its outcome is the same
+    for kind in [Kind::SlotArcMutex, Kind::MapArcMutex, Kind::RefArcMutex, Kind::SlotArcRwLock, Kind::MapArcRwLock, Kind::RefArcRwLock] {
+        for polls in [1usize, 3] {
+            let id = vec![0xAE, 1, 1, polls as u8];
+            let pk = make_passkey(ctx, id.clone(), rps[0], Some(vec![9]), Some(3), None);
+            let w = World { kind, counter_on: true, id_len: 16, hm: Hm::None, preload: vec![pk] };
+            let mut m1 = simple_make(ctx, rps[0]); m1.exclude = Some(vec![id.clone()]);
+            let mut g1 = simple_get(ctx, rps[0]); g1.allow = Some(vec![id.clone()]);
+            let mut m2 = simple_make(ctx, rps[0]); m2.exclude = Some(vec![vec![1, 2, 3]]);
+            let mut steps = vec![step(Op::Make(m1)), step(Op::Get(g1)), step(Op::Make(m2))];
+            for s in steps.iter_mut() { s.hold_polls = polls; }
+            run_case(ctx, "C05", &w, &steps);
+            ctx.stat("c05.corpus.store_locked_by_another_user");
+        }
+    }
+    // ---- corpus: related RP IDs (parent domain, subdomain, other case) never share credentials
+    for kind in [Kind::Slot, Kind::Map, Kind::RefFull, Kind::SlotArcMutex] {
+        for (held, asked) in [("example.com", "login.example.com"), ("login.example.com", "example.com"), ("example.com", "Example.com"), ("example.com", "example.com."), ("example.com", "xample.com")] {
+            let id = vec![0xAD, 7, 7, 7];
+            let pk = make_passkey(ctx, id.clone(), held, Some(vec![9]), None, None);
+            let w = World { kind, counter_on: false, id_len: 16, hm: Hm::None, preload: vec![pk] };
+            let mut g1 = simple_get(ctx, asked); g1.allow = Some(vec![id.clone()]);
+            let g2 = simple_get(ctx, asked);
+            let mut m1 = simple_make(ctx, asked); m1.exclude = Some(vec![id.clone()]);
+            let mut g3 = simple_get(ctx, held); g3.allow = Some(vec![id.clone()]);
+            run_case(ctx, "C05", &w, &[step(Op::Get(g1)), step(Op::Get(g2)), step(Op::Get(g3)), step(Op::Make(m1))]);
+            ctx.stat("c05.corpus.related_rp_ids");
+        }
+    }
+    // ---- sequences through the authenticator: the same account (user handle) registering at several RPs and
+    //      twice at one RP, each credential then asked for by id at its own RP, at another RP, and excluded
+    for (i, kind) in [Kind::Map, Kind::RefFull, Kind::MapArcMutex, Kind::RefForced, Kind::MapRwLock].iter().enumerate() {
+        for round in 0..(if ctx.thorough { 12 } else { 3 }) {
+            let user = ctx.rng.bytes_in(1, 16);
+            let w = World { kind: *kind, counter_on: ctx.rng.bool(), id_len: 16, hm: Hm::None, preload: vec![] };
+            let (ra, rb) = (rps[(i + round) % 3], rps[(i + round + 1) % 3]);
+            let mut steps = vec![];
+            let mk = |ctx: &mut Ctx, rp: &str, user: &Vec<u8>| { let mut m = simple_make(ctx, rp); m.user = user.clone(); m.rk = true; m };
+            steps.push(step(Op::Make(mk(ctx, ra, &user))));                                   // @0 at A
+            steps.push(step(Op::Make(mk(ctx, rb, &user))));                                   // @1 at B, same handle
+            steps.push(step(Op::Make(mk(ctx, ra, &user))));                                   // @2 at A again, same handle
+            for (k, rp) in [(0usize, ra), (1, rb), (2, ra), (0, rb), (1, ra)] {
+                let mut g = simple_get(ctx, rp); g.allow = Some(vec![format!("@{}", k).into_bytes()]);
+                steps.push(step(Op::Get(g)));
+            }
+            { let mut m = mk(ctx, ra, &user); m.exclude = Some(vec![b"@0".to_vec()]); steps.push(step(Op::Make(m))); }   // held for A: excluded
+            { let mut m = mk(ctx, rb, &user); m.exclude = Some(vec![b"@0".to_vec()]); steps.push(step(Op::Make(m))); }   // held for A only: not excluded at B
+            { let other = ctx.rng.bytes(4); let mut m = mk(ctx, ra, &other); m.exclude = Some(vec![b"@2".to_vec(), vec![1, 2, 3]]); steps.push(step(Op::Make(m))); }   // another account, still excluded
+            run_case(ctx, "C05", &w, &steps);
+            ctx.stat("c05.sequences.same_handle_across_rps");
+        }
     }
     let kinds = [Kind::RefFull, Kind::RefFull, Kind::RefForced, Kind::Map, Kind::Slot, Kind::MapArcMutex, Kind::MapArcRwLock, Kind::SlotArcMutex, Kind::SlotRwLock,
         Kind::MapMutex, Kind::MapRwLock, Kind::SlotArcRwLock, Kind::SlotMutex, Kind::RefArcMutex, Kind::RefArcRwLock, Kind::RefMutex, Kind::RefRwLock];
